@@ -1,4 +1,5 @@
 From V Require Import Common.Base Common.Utf8 C07.LineCol C07.Builder C07.Vlq C07.SpecMap C07.Mappings C07.MappingsProofs C07.FindProofs C07.JoinProofs C07.SpecBuilder C07.LineColProofs C07.JoinAll C07.JoinAllProofs C07.Pipeline C07.Shift C07.ShiftProofs C07.BuilderIn C07.BuilderInProofs C07.AdvConcat.
+From V Require C16.Checked C16.Vlq16 C16.Vlq16Proofs C07.ParseMap C07.ParseMapProofs.
 (* non-vacuity / sanity: concrete values *)
 Example enc_ex : map encodeVLQ [0; 1; -1; 15; 16; -16; 123456] =
   [[65]; [67]; [68]; [101]; [103; 66]; [104; 66]; [103; 107; 120; 72]].
@@ -125,3 +126,14 @@ Example composes_is_remapping_ex :
   let a := abs_of (builder_spec_ops text false evs [10]) 0 in
   length a = 4%nat /\ length (flat_map (remap_abs ms) a) = 3%nat.
 Proof. vm_compute. split; reflexivity. Qed.
+(* parsed_map_sorted_in_range: "AAAA,IAAE,FAAA;CACA" has a negative column delta
+   (needSort path), hypotheses hold, the result is the sorted list *)
+Example parsed_map_ex :
+  let raw := [65;65;65;65; 44; 73;65;65;69; 44; 70;65;65;65; 59; 67;65;67;65] in
+  let secs := [(0, 0, 2, 0, raw)] in
+  Vlq16Proofs.sections_ok secs /\ Forall C07.ParseMapProofs.sec_bounds secs /\
+  C07.ParseMap.ParseMappingsOrdered secs =
+    Checked.Ok (C07.ParseMap.QMap 2 0 [(0, 0, 0, 0, 0, -1); (0, 2, 0, 0, 2, -1); (0, 4, 0, 0, 2, -1); (1, 1, 0, 1, 2, -1)] true).
+Proof.
+  split; [repeat constructor; lia|]. split; [repeat constructor; cbn; lia|]. vm_compute. reflexivity.
+Qed.
